@@ -166,17 +166,19 @@ def module_name_form(t):
     # line0.replace('@module', '')
     if t[0] == "call" and t[1][0] == "attr" and t[1][2] in ("replace", "removeprefix") and _first_line(t[1][1]):
         args = t[2]
-        good = args == (const("@module"), const("")) or (t[1][2] == "removeprefix" and args == (const("@module"),))
+        if t[1][2] == "removeprefix":
+            return False, ("removeprefix('@module') assumes the tag starts the cleaned line; the lexer allows any run of blanks before it "
+                           "and the cleaner removes one: with two blanks or a tab the tag stays in the name")
+        good = args == (const("@module"), const(""))
         if not good:
             return False, f"it removes {args[0][1] if args and is_const(args[0]) else '?'!r} instead of '@module'"
         return (True, "") if stripped else (False, "the blanks around the name are not trimmed")
     # line0[len('@module'):] / line0[7:]
     if t[0] == "slice" and _first_line(t[1]) and t[3] == const(None) and t[4] == const(None):
         lo = t[2]
-        good = lo == const(7) or lo == ("call", ("global", "len"), (const("@module"),), ())
-        if not good:
-            return False, "the prefix cut from the first line is not exactly '@module'"
-        return (True, "") if stripped else (False, "the blanks around the name are not trimmed")
+        return False, ("a fixed-length prefix is cut from the cleaned first line: that assumes the tag starts the line, but the lexer "
+                       "allows any run of blanks before '@module' and the cleaner removes only one, so with two blanks or a tab the "
+                       "name starts inside the tag ('e foo')")
     # line0.split('@module', 1)[1] / [-1]  and  line0.partition('@module')[2]: the first line of a module doccomment always
     # contains the tag (lexer rule Module_docstring), so cutting at its first occurrence equals removing it
     if t[0] == "sub" and t[1][0] == "call" and t[1][1][0] == "attr" and _first_line(t[1][1][1]):
@@ -247,3 +249,7 @@ def rule_module_callback(rep: Report, repo: Repo, rule: str) -> None:
     from .c16 import rule_source_order
     with rep.isolated():
         rule_source_order(rep, repo, "C12-R8")
+    # the prefix in effect is the configured one, character for character
+    from . import tables as _tb
+    with rep.isolated():
+        _tb.rule_no_option_rewrite(rep, repo, "C12-R9")
